@@ -2,7 +2,7 @@
 (* spec -> code: every message of the chosen family (GEN_SET) with its reference encoding. *)
 EXTENDS CosemLists, Json, IOUtils
 Which == IF "GEN_SET" \in DOMAIN IOEnv THEN IOEnv.GEN_SET ELSE "aidon"
-Chosen == IF Which = "aidon" THEN AidonMsgs ELSE IF Which = "kaifa" THEN KaifaMsgs ELSE IF Which = "kamstrup" THEN KamMsgs ELSE DtAll
+Chosen == IF Which = "aidon" THEN AidonMsgs_(0) ELSE IF Which = "kaifa" THEN KaifaMsgs_(0) ELSE IF Which = "kamstrup" THEN KamMsgs_(0) ELSE DtAll_(0)
 ASSUME \A m \in Chosen : MsgOk(m)
 ASSUME JsonSerialize(IOEnv.OUT_FILE, SetToSeq({[msg |-> m, bytes |-> Encode(m)] : m \in Chosen}))
 =============================================================================
